@@ -311,13 +311,16 @@ namespace occa {
           )
           .filter([&](statement_t *smnt) {
               statement_t *parentSmnt = smnt->up;
+              // A [switch] only captures [break]: a [continue] inside it still
+              // belongs to the enclosing loop
+              const bool isBreak = (smnt->type() & statementType::break_);
 
               while (parentSmnt) {
                 const int sType = parentSmnt->type();
 
                 // Break/continue is for a non-okl while/switch statement
-                if (sType & (statementType::while_ |
-                             statementType::switch_)) {
+                if ((sType & statementType::while_)
+                    || (isBreak && (sType & statementType::switch_))) {
                   return false;
                 }
 
